@@ -42,14 +42,28 @@ class RL:
                 if fb is not None and fb.crate.name == CRATE and fb.kind == "fn" and "core::result::Result<core::time::Duration" in fb.local_ty(0)["s"]:
                     self.tcalls.append((c, fb))
         self.dispatch = self.tcalls[0][1] if self.tcalls else None
-        # window states: local fns with the same return type called by the dispatcher
+        # window states: the leaves of the call tree of workspace-local functions with that return type
+        # (wrappers such as a lock-and-try helper or the enum dispatcher are looked through)
         self.windows = []
         if self.dispatch is not None:
-            for c in graph(self.dispatch).calls():
-                for d in c.targets_def():
-                    fb = facts.bodies.get(d)
-                    if fb is not None and fb.crate.name == CRATE and fb.kind == "fn" and fb.local_ty(0)["s"] == self.dispatch.local_ty(0)["s"] and fb not in self.windows:
-                        self.windows.append(fb)
+            rty = self.dispatch.local_ty(0)["s"]
+            seen, work = set(), [fb for (_c, fb) in self.tcalls]
+            while work:
+                fb = work.pop()
+                if fb.def_ in seen:
+                    continue
+                seen.add(fb.def_)
+                kids = []
+                for c in graph(fb).calls():
+                    for d in c.targets_def():
+                        k = facts.bodies.get(d)
+                        if k is not None and k.crate.name == CRATE and k.kind == "fn" and k.local_ty(0)["s"] == rty and k is not fb:
+                            kids.append(k)
+                if kids:
+                    work += kids
+                elif fb not in self.windows:
+                    self.windows.append(fb)
+            self.windows.sort(key=lambda b: b.def_)
         self.ok = bool(self.tcalls)
 
     def self_adt(self, body):
